@@ -11,7 +11,13 @@ INTERVALS = [(F(0), F(1)), (F(-1), F(1)), (F(1), F(3)), (F(-2), F(0)), (F(0), F(
 GRIDS = [2, 3, 4, 5, 6, 7, 8, 12, 16, 60]
 
 
+# intervals near the bounds of DESIGN 4 (|knot| <= 1e3, distinct knots >= 1e-3 apart): far from 0, short, tiny around 0
+EXTREME_INTERVALS = [(F(999), F(1000)), (F(-1000), F(-998)), (F(0), F(1, 10)), (F(-1, 20), F(1, 20)), (F(-500), F(500))]
+
+
 def interval(rng):
+    if rng.random() < 0.12:
+        return rng.choice(EXTREME_INTERVALS)
     return rng.choice(INTERVALS)
 
 
@@ -145,6 +151,8 @@ def well_conditioned(U, W=None):
     L = ks[-1] - ks[0]
     if min(b - a for a, b in zip(ks, ks[1:])) < L / 60:
         return False
+    if L > 10 or L < F(1, 20) or max(abs(ks[0]), abs(ks[-1])) > 100:
+        return False  # absolute tolerances of the library (1e-9 on integrals over the interval) meet float noise there
     if W is not None and max(W) / min(W) > 9:
         return False
     return True
